@@ -64,62 +64,7 @@ func checkC09(c *Ctx) {
 		return
 	}
 	// ---- (1b) the working tree and lastSaved are distinct, fresh objects
-	c.rule("FRESH-working-vs-saved", "working tree and last-saved tree never alias", 6)
-	fLast := l.Field("", "MutableTree", "lastSaved")
-	cloneM := l.Func("", "*ImmutableTree.clone")
-	if fLast == nil || cloneM == nil {
-		c.anchorMissing("FRESH-working-vs-saved", "MutableTree.lastSaved / ImmutableTree.clone")
-	} else {
-		isFreshTree := func(v ssa.Value) bool {
-			v = stripTrivial(v)
-			if isNilConst(v) {
-				return true
-			}
-			if _, ok := v.(*ssa.Alloc); ok {
-				return true
-			}
-			if call, ok := v.(*ssa.Call); ok && predStatic(cloneM)(&call.Call) {
-				return true
-			}
-			if p, ok := v.(*ssa.Phi); ok {
-				for _, e := range p.Edges {
-					ev := stripTrivial(e)
-					_, al := ev.(*ssa.Alloc)
-					call, isCall := ev.(*ssa.Call)
-					if !(al || isCall && predStatic(cloneM)(&call.Call)) {
-						return false
-					}
-				}
-				return true
-			}
-			return false
-		}
-		for _, fn := range l.SrcFuncs {
-			if l.pkgPathOf(fn) != l.ModPath {
-				continue
-			}
-			sts := append(storesToField(fn, fEmb), storesToField(fn, fLast)...)
-			vals := map[ssa.Value]int{}
-			for _, st := range sts {
-				v := stripTrivial(st.Val)
-				vals[v]++
-				key := l.fname(fn) + " " + describe(l, st)
-				ok := isFreshTree(v)
-				// an object stored into one field may be a local that is not stored into the other
-				if !ok {
-					if _, isAl := v.(*ssa.Alloc); isAl {
-						ok = true
-					}
-				}
-				c.decide("FRESH-working-vs-saved", key, l.ipos(st), ok, "a freshly allocated tree or a clone()", "the working tree / lastSaved is set to an existing tree object (`"+roleOf(l, v, "", 0)+"`): the two can alias, so uncommitted writes change the saved snapshot and Rollback restores nothing")
-			}
-			for v, n := range vals {
-				if n > 1 && !isNilConst(v) {
-					c.bad("FRESH-working-vs-saved", l.fname(fn)+" stores one object into both fields", l.pos(fn.Pos()), "the same tree object is stored as working tree and as lastSaved")
-				}
-			}
-		}
-	}
+	checkWorkingVsSaved(c)
 	checkCacheRefresh(c)
 	// Rollback returns to lastSaved: it must follow every successful commit / load
 	checkLastSaved(c)
@@ -221,46 +166,27 @@ func checkC09(c *Ctx) {
 	}
 
 	// ---- (3)
-	lvo := l.Func("", "*MutableTree.LoadVersionForOverwriting")
-	lv := l.Func("", "*MutableTree.LoadVersion")
-	commit := l.Func("", "*nodeDB.Commit")
-	enable := l.Func("", "*MutableTree.enableFastStorageAndCommitIfNotEnabled")
-	if lvo == nil || lv == nil || dvf == nil || commit == nil || enable == nil {
-		c.anchorMissing("ORDER-overwrite-sequence", "LoadVersionForOverwriting / LoadVersion / DeleteVersionsFrom / Commit / enableFastStorage…")
-		return
-	}
-	first := func(f *ssa.Function) *ssa.Call {
-		for _, in := range callsIn(lvo, predStatic(f)) {
-			if cl, ok := in.(*ssa.Call); ok {
-				return cl
+	checkOverwriteSequence(c)
+	// ---- (4) the range scans of a rollback cannot end early unnoticed
+	c.rule("ERR-E3-rollback", "the scans that delete the erased versions consult the iterator's error before reporting success", 2)
+	{
+		ea := newErrAnalysis(c, l)
+		var fns []*ssa.Function
+		for _, n := range []string{"*nodeDB.DeleteVersionsFrom", "*nodeDB.traverseRange", "*nodeDB.traversePrefix", "*nodeDB.traverseFastNodes", "*MutableTree.enableFastStorageAndCommitIfNotEnabled"} {
+			if f := l.Func("", n); f != nil {
+				fns = append(fns, f)
 			}
 		}
-		return nil
-	}
-	seq := []*ssa.Function{lv, dvf, commit, enable}
-	names := []string{"LoadVersion", "DeleteVersionsFrom", "Commit", "index rebuild"}
-	var prev *ssa.Call
-	for i, f := range seq {
-		cl := first(f)
-		if cl == nil {
-			c.bad("ORDER-overwrite-sequence", "LoadVersionForOverwriting calls "+names[i], l.pos(lvo.Pos()), "step is missing")
-			prev = nil
-			continue
-		}
-		if i > 0 {
-			if prev == nil {
-				c.undecided("ORDER-overwrite-sequence", names[i-1]+" ≺ "+names[i], l.ipos(cl), "previous step missing")
-			} else {
-				c.decide("ORDER-overwrite-sequence", names[i-1]+" ≺ "+names[i], l.ipos(cl), okEdgeDominates(prev, cl),
-					"runs only after the previous step returned a nil error", names[i]+" can run although "+names[i-1]+" did not run or failed")
+		ea.runE3("ERR-E3-rollback", func(fn *ssa.Function) bool {
+			for f := fn; f != nil; f = f.Parent() {
+				for _, g := range fns {
+					if f == g {
+						return true
+					}
+				}
 			}
-		}
-		prev = cl
-	}
-	// and no success return skips the commit
-	passed := mustState(lvo, false, func(in ssa.Instruction) bool { cc := callCommon(in); return cc != nil && predStatic(commit)(cc) }, nil)
-	for _, r := range successReturns(lvo) {
-		c.decide("ORDER-overwrite-sequence", "LoadVersionForOverwriting success passes Commit", l.ipos(r), passed(r), "passes Commit", "a success return does not pass Commit")
+			return false
+		})
 	}
 }
 
@@ -580,4 +506,122 @@ func checkLRU(c *Ctx, rule string) {
 		okGet = okGet && on
 	}
 	c.decide(rule, "lruCache.Get returns the value stored under the key, only on a hit", l.pos(get.Pos()), okGet, "hit ⇒ element.Value, miss ⇒ nil", "Get can return a value on a miss or something other than the element stored under the key")
+}
+
+// checkWorkingVsSaved (shared by C09 and C01): the working tree and lastSaved
+// are always distinct, fresh objects.
+func checkWorkingVsSaved(c *Ctx) {
+	l := c.L
+	fEmb := l.Field("", "MutableTree", "ImmutableTree")
+	if fEmb == nil {
+		c.anchorMissing("FRESH-working-vs-saved", "MutableTree.ImmutableTree")
+		return
+	}
+	c.rule("FRESH-working-vs-saved", "working tree and last-saved tree never alias", 6)
+	fLast := l.Field("", "MutableTree", "lastSaved")
+	cloneM := l.Func("", "*ImmutableTree.clone")
+	if fLast == nil || cloneM == nil {
+		c.anchorMissing("FRESH-working-vs-saved", "MutableTree.lastSaved / ImmutableTree.clone")
+	} else {
+		isFreshTree := func(v ssa.Value) bool {
+			v = stripTrivial(v)
+			if isNilConst(v) {
+				return true
+			}
+			if _, ok := v.(*ssa.Alloc); ok {
+				return true
+			}
+			if call, ok := v.(*ssa.Call); ok && predStatic(cloneM)(&call.Call) {
+				return true
+			}
+			if p, ok := v.(*ssa.Phi); ok {
+				for _, e := range p.Edges {
+					ev := stripTrivial(e)
+					_, al := ev.(*ssa.Alloc)
+					call, isCall := ev.(*ssa.Call)
+					if !(al || isCall && predStatic(cloneM)(&call.Call)) {
+						return false
+					}
+				}
+				return true
+			}
+			return false
+		}
+		for _, fn := range l.SrcFuncs {
+			if l.pkgPathOf(fn) != l.ModPath {
+				continue
+			}
+			sts := append(storesToField(fn, fEmb), storesToField(fn, fLast)...)
+			vals := map[ssa.Value]int{}
+			for _, st := range sts {
+				v := stripTrivial(st.Val)
+				vals[v]++
+				key := l.fname(fn) + " " + describe(l, st)
+				ok := isFreshTree(v)
+				// an object stored into one field may be a local that is not stored into the other
+				if !ok {
+					if _, isAl := v.(*ssa.Alloc); isAl {
+						ok = true
+					}
+				}
+				c.decide("FRESH-working-vs-saved", key, l.ipos(st), ok, "a freshly allocated tree or a clone()", "the working tree / lastSaved is set to an existing tree object (`"+roleOf(l, v, "", 0)+"`): the two can alias, so uncommitted writes change the saved snapshot and Rollback restores nothing")
+			}
+			for v, n := range vals {
+				if n > 1 && !isNilConst(v) {
+					c.bad("FRESH-working-vs-saved", l.fname(fn)+" stores one object into both fields", l.pos(fn.Pos()), "the same tree object is stored as working tree and as lastSaved")
+				}
+			}
+		}
+	}
+}
+
+// checkOverwriteSequence (shared by C09 and C01): LoadVersionForOverwriting is
+// load ≺ range delete ≺ commit ≺ index rebuild, and no success return skips
+// the commit (the range delete only becomes durable with it — also when the
+// fast index is disabled and no rebuild follows).
+func checkOverwriteSequence(c *Ctx) {
+	l := c.L
+	c.rule("ORDER-overwrite-sequence", "LoadVersionForOverwriting step order", 3)
+	dvf := l.Func("", "*nodeDB.DeleteVersionsFrom")
+	lvo := l.Func("", "*MutableTree.LoadVersionForOverwriting")
+	lv := l.Func("", "*MutableTree.LoadVersion")
+	commit := l.Func("", "*nodeDB.Commit")
+	enable := l.Func("", "*MutableTree.enableFastStorageAndCommitIfNotEnabled")
+	if lvo == nil || lv == nil || dvf == nil || commit == nil || enable == nil {
+		c.anchorMissing("ORDER-overwrite-sequence", "LoadVersionForOverwriting / LoadVersion / DeleteVersionsFrom / Commit / enableFastStorage…")
+		return
+	}
+	first := func(f *ssa.Function) *ssa.Call {
+		for _, in := range callsIn(lvo, predStatic(f)) {
+			if cl, ok := in.(*ssa.Call); ok {
+				return cl
+			}
+		}
+		return nil
+	}
+	seq := []*ssa.Function{lv, dvf, commit, enable}
+	names := []string{"LoadVersion", "DeleteVersionsFrom", "Commit", "index rebuild"}
+	var prev *ssa.Call
+	for i, f := range seq {
+		cl := first(f)
+		if cl == nil {
+			c.bad("ORDER-overwrite-sequence", "LoadVersionForOverwriting calls "+names[i], l.pos(lvo.Pos()), "step is missing")
+			prev = nil
+			continue
+		}
+		if i > 0 {
+			if prev == nil {
+				c.undecided("ORDER-overwrite-sequence", names[i-1]+" ≺ "+names[i], l.ipos(cl), "previous step missing")
+			} else {
+				c.decide("ORDER-overwrite-sequence", names[i-1]+" ≺ "+names[i], l.ipos(cl), okEdgeDominates(prev, cl),
+					"runs only after the previous step returned a nil error", names[i]+" can run although "+names[i-1]+" did not run or failed")
+			}
+		}
+		prev = cl
+	}
+	// and no success return skips the commit
+	passed := mustState(lvo, false, func(in ssa.Instruction) bool { cc := callCommon(in); return cc != nil && predStatic(commit)(cc) }, nil)
+	for _, r := range successReturns(lvo) {
+		c.decide("ORDER-overwrite-sequence", "LoadVersionForOverwriting success passes Commit", l.ipos(r), passed(r), "passes Commit", "a success return does not pass Commit")
+	}
 }
